@@ -116,6 +116,37 @@ pub fn debug_cmd(args: &[String]) {
                 println!("elide {idx}: {r}");
             }
         }
+        Some("c13") => {
+            // dbg c13 <replay.json>: prints incremental and fresh diagnostics of the last step.
+            let v: serde_json::Value = serde_json::from_str(&std::fs::read_to_string(&args[1]).unwrap()).unwrap();
+            let a = if v.get("artefact").is_some() { v["artefact"].clone() } else { v };
+            let steps = a["steps"].as_array().unwrap();
+            let mut sut = c13::Sut::new();
+            let mut last = [None, None];
+            for st in steps {
+                let c = [st["lib"].as_str().map(|s| s.to_string()), st["m"].as_str().map(|s| s.to_string())];
+                for (i, f) in ["lib.cairo", "m.cairo"].iter().enumerate() {
+                    if c[i] != last[i] {
+                        sut.set(f, c[i].as_deref());
+                    }
+                }
+                last = c;
+                if st["query"].as_str() != Some("None") {
+                    let _ = sut.observe(st["query"].as_str() == Some("Sierra"));
+                }
+            }
+            let inc = sut.observe(true).unwrap();
+            let mut fresh = c13::Sut::new();
+            for (i, f) in ["lib.cairo", "m.cairo"].iter().enumerate() {
+                if let Some(c) = &last[i] {
+                    fresh.set(f, Some(c));
+                }
+            }
+            let fr = fresh.observe(true).unwrap();
+            std::fs::write("/tmp/c13_inc.txt", &inc.0).unwrap();
+            std::fs::write("/tmp/c13_fresh.txt", &fr.0).unwrap();
+            println!("equal: {}", inc.0 == fr.0);
+        }
         Some("c14felts") => {
             c14::debug_felts();
         }
